@@ -1123,6 +1123,8 @@ class CompletionContextParser:
 
         if self.cursor_in_span(span):
             relative_cursor = self.cursor - span.start
+            if string[max(relative_cursor - 1, 0) : relative_cursor + 1] == line_cont:
+                relative_cursor -= 1  # cursor between the backslash and the newline
             relative_cursor += string.count(line_cont, 0, relative_cursor) * diff
 
         string = string.replace(line_cont, replacement)
